@@ -1,7 +1,8 @@
 """C13 bounded stand-in: the three punctuation movers put punctuation where documented and move
 nothing else.  Parent identity is compared through a stable key (spec x.uid) attached to every node.
 
-Witness: {"spec": tree spec, "ra": bool (root_attach first), "relc": bool} (relc only for symetrify).
+Witness: {"spec": tree spec, "ra": bool (root_attach first), "relc": bool} (relc only for symetrify;
+ra is always true for verylow and symetrify, whose docstrings name root_attach as prerequisite).
 
 Clauses (the property text, executable)
   verylow_placement      after punctuation_verylow every non-initial punctuation token is a sister of its
@@ -25,15 +26,16 @@ RULE = ("all tree shapes with n<=N tokens, D random decorations each: every toke
         "with p=0.5 (half of those paired punctuation), unary wrappers (also over punctuation), "
         "shuffled stored child order, punctuation-only decorations, relative-pronoun POS for relc; "
         "hand-made families (consecutive punctuation, punctuation-only constituents, unary nodes "
-        "over punctuation); seeded random trees to n=10; each with and without root_attach first "
-        "(punctuation_root: documented 'Prerequisite: none').  Non-trivial = distinct tree with "
+        "over punctuation); seeded random trees to n=10; punctuation_root (documented "
+        "'Prerequisite: none') with and without root_attach first, verylow and symetrify (documented "
+        "prerequisite root_attach) after root_attach, symetrify with and without relc.  Non-trivial = distinct tree with "
         "both punctuation and non-punctuation tokens")
 
 
 def BOUNDS(ctx):
     return {"exhaustive_shapes_n": 4 if ctx.quick else 5,
-            "decorations_per_shape": 6 if ctx.quick else 8,
-            "random_trees": 500 if ctx.quick else 8000, "random_max_n": 10}
+            "decorations_per_shape": 8,
+            "random_trees": 1500 if ctx.quick else 10000, "random_max_n": 10}
 
 
 SITES = {
@@ -45,9 +47,6 @@ SITES = {
     "symetrify_frame": "trees.transform.punctuation_symetrify",
 }
 
-STEP_OF = {"verylow": "punctuation_verylow", "root": "punctuation_root"}
-
-
 def _run(ctx, w, step):
     """returns (pre spec, post spec) or a violation tuple"""
     trees = ctx.mod("trees")
@@ -57,11 +56,13 @@ def _run(ctx, w, step):
         if tg.wf_errors(t):
             raise Skip()
     pre = L.real_spec(t)
+    kids_before = L.child_counts(t)
     try:
         r = L.apply_step(ctx, step, t)
     except Exception as e:
         return None, ("%s returns the tree" % step,
-                      {"raised": "%s: %s" % (type(e).__name__, e), "wf_errors": L.describe_wreck(t)})
+                      {"raised": "%s: %s" % (type(e).__name__, e), "wf_errors": L.describe_wreck(t),
+                       "emptied_had_children": L.emptied_info(kids_before, L.top_of(t))})
     if r is not t:
         return None, ("returns the root that was passed in", "another node")
     # structural sanity needed to read parents off the result (links consistent, nothing lost);
@@ -209,12 +210,16 @@ CLAUSES = {"verylow_placement": c_verylow_placement, "verylow_frame": c_verylow_
 # generation
 # ----------------------------------------------------------------------------
 def _witnesses(spec):
+    """punctuation_root is documented with 'Prerequisite: none': with and without root_attach;
+    verylow and symetrify document root_attach as prerequisite: only after it (Appendix A)"""
     for ra in (False, True):
-        for cl in ("verylow_placement", "verylow_frame", "root_placement", "root_frame"):
+        for cl in ("root_placement", "root_frame"):
             yield cl, {"spec": spec, "ra": ra}
-        for relc in (False, True):
-            for cl in ("symetrify_moves", "symetrify_frame"):
-                yield cl, {"spec": spec, "ra": ra, "relc": relc}
+    for cl in ("verylow_placement", "verylow_frame"):
+        yield cl, {"spec": spec, "ra": True}
+    for relc in (False, True):
+        for cl in ("symetrify_moves", "symetrify_frame"):
+            yield cl, {"spec": spec, "ra": True, "relc": relc}
 
 
 def _nt(spec):
@@ -245,8 +250,13 @@ def generate(ctx):
 
 
 def classify(clause, witness, expected, observed):
+    """known defect (DESIGN F7): symetrify moved a candidate that was the only child of its
+    parent and then trips over the emptied constituent"""
     if isinstance(observed, dict) and "raised" in observed:
-        if any("childless constituent" in e for e in observed.get("wf_errors", [])):
+        errs = observed.get("wf_errors") or []
+        had = observed.get("emptied_had_children") or []
+        if clause.startswith("symetrify") and errs and all("childless constituent" in e for e in errs) \
+                and had and all(isinstance(k, int) and k >= 1 for k in had):
             return "raises-after-emptying-a-constituent"
         return "raises"
     return None
